@@ -250,6 +250,38 @@ def run(ctx):
                     if -1 in pre["ax"]["vrnt"] or not pre["ok"]["cells"]:
                         continue
                     genotype_step(ctx, cur, pre, kind, "all", rng, out, hid, 0, which, invert)
+    # matrices with MORE than two square taxa axes (three- / four-way variance matrices): reorder / sort / group in place,
+    # axis-specific and generic; every taxa axis must follow the labels (cells encode the entity ids of all axes)
+    for clsname in lm.CLASSES_MULTISQUARE:
+        cls, kind = lm.get_class(clsname)
+        for rep in range(6 if thorough else 3):
+            for op in ("reorder", "sort", "group"):
+                for form in ("specific", "generic+"):
+                    hid += 1
+                    n = rng.randrange(2, 4 if kind == "SQ4R" else 5)
+                    ax0 = {"taxa": rng.sample(range(lm.NID), n), "vrnt": [], "trait": [rng.randrange(lm.NID) for _ in range(rng.randrange(1, 3))]}
+                    try:
+                        cur = lm.build(clsname, ax0, "all")
+                    except Exception as e:
+                        ctx.violation("%s.__init__:exception" % clsname, "%s: %s" % (type(e).__name__, e), {"ax": ax0}); continue
+                    pre = lm.project(cur, kind)
+                    if not pre["ok"]["cells"]:
+                        raise tlc.TLCFailure("harness: cannot decode a freshly built %s" % clsname)
+                    pm = list(range(n))
+                    while pm == list(range(n)):
+                        rng.shuffle(pm)
+                    args = {"ix": pm} if op == "reorder" else {}
+                    c = {"qual": "%s.%s%s" % (clsname, op, "_taxa" if form == "specific" else ""), "id": len(out) + 1, "hist": hid, "step": 0,
+                         "cls": clsname, "kind": kind, "presence": "all", "axis": "taxa", "op": op, "realop": op, "form": form, "mut": True,
+                         "ix": args.get("ix", []), "del": [], "pos": [], "blk": [], "raw": False, "objrepr": "", "pre": pre, "err": None,
+                         "lexsortok": True, "tab": lm.TAB}
+                    try:
+                        with time_limit(20):
+                            res = lm.execute(cur, clsname, "taxa", op, args, form, True, "all")
+                        c["post"] = lm.project(res, kind); c["opnd"] = c["post"]
+                    except Exception as e:
+                        c["err"] = "%s: %s" % (type(e).__name__, str(e)[:200]); c["post"] = pre; c["opnd"] = pre
+                    out.append(c)
     # raw blocks WITHOUT the optional name array adjoined / inserted into named matrices: the new entities carry no name (None); the mutating form (append, incorp) must leave the object in the state its non-mutating counterpart returns
     for clsname in lm.CLASSES:
         cls, kind = lm.get_class(clsname)
